@@ -196,7 +196,7 @@ def rule_enable(ctx):
 
 
 # kind/name dispatch table
-IMPORTS = [('C06', 'C06.KEY'), ('C11', 'C11.RECOVER'), ('C04', 'C04.ACC'), ('C04', 'C04.DEV')]
+IMPORTS = [('C06', 'C06.KEY'), ('C11', 'C11.RECOVER'), ('C04', 'C04.ACC'), ('C04', 'C04.DEV'), ('C02', 'C02.DISCARD'), ('C02', 'C02.CONSUME'), ('C11', 'C11.NOGROW')]
 
 RULES = [
     ("C12.ESCAPE", rule_escape, "fault catalogue x may-raise primitives: nothing escapes Driver.message_from_client; only validly named elements change"),
